@@ -38,7 +38,7 @@ func NewStdOutProcessor(lineLen uint) *StdOutProcessor {
 }
 
 func (s *StdOutProcessor) Write(b uint8) {
-	if (s.charCount != 0) && ((s.charCount % s.lineLength) == 0) {
+	if (s.lineLength != 0) && (s.charCount != 0) && ((s.charCount % s.lineLength) == 0) {
 		fmt.Println()
 	}
 	fmt.Printf("%02X ", b)
